@@ -282,7 +282,7 @@ func (r *Runner) resolveCallExpression(ctx context.Context, expr *CallExpression
 		}
 	}
 	funType := reflect.TypeOf(fun)
-	if funType.Kind() != reflect.Func {
+	if funType == nil || funType.Kind() != reflect.Func {
 		return nil, fmt.Errorf("expr %s value not is function", name)
 	}
 	hasVariadic := hasVariadicParameter(funType)
